@@ -444,4 +444,29 @@ def hasType : Conv → PyVal → Bool
   | .float, .float _ => true
   | _, _ => false
 
+/-! ### Deciders of the hypotheses about CPython's engines
+
+`AlphaOK alpha` (Lemmas/Flags.lean) and the round-trip hypotheses of `parse_float_repr` are facts
+about CPython (`str.isalpha`, `float` / `repr`).  The harness tables what the running interpreter
+answers and the driver decides the hypotheses on those tables (`c07.alpha_ok`, `c07.float_rt`). -/
+
+/-- the 63 characters of `[a-zA-Z0-9\-]` -/
+def nameCharList : List Char := ((List.range 128).map Char.ofNat).filter nameChar
+
+/-- `str.isalpha` as a table of what the interpreter answered (false off the table) -/
+def alphaOfTable (tbl : List (Char × Bool)) (c : Char) : Bool :=
+  match tbl.lookup c with
+  | some b => b
+  | none => false
+
+/-- decides `AlphaOK` of every `isalpha` that answers as the table says on `[a-zA-Z0-9\-]`: each of
+the 63 characters is in the table, with the answer "is an ASCII letter" -/
+def alphaTableOK (tbl : List (Char × Bool)) : Bool :=
+  nameCharList.all (fun c => tbl.lookup c == some (isAsciiLetter c))
+
+/-- decides the two hypotheses of `parse_float_repr` for one float: `float(repr(x)) == x` and
+`repr(x) != "null"` -/
+def floatRtB (eng : FloatEng) (x : PyFloat) : Bool :=
+  eng.ofStr (eng.repr x) == some x && eng.repr x != nullText
+
 end Clikit.Flags
